@@ -23,12 +23,13 @@ package main
 //@   modifies Context.blockProcessed
 
 //@ func (*simNode).Run
+//@   loops 2
 //@   requires ctx != nil && n.d.Config.Timer != nil
 //@   loop 1: invariant n.d.Config.Timer != nil
 //@   loop 2: invariant n.d.Config.Timer != nil
-//@   at call n.d.Timer.C: assert [C17] @neverWaitsDecided !n.d.BlockSent()
+//@   at call *.C: assert [C17] @neverWaitsDecided !n.d.BlockSent()
 // a timer expiry is handed to the library with the epoch the timer was armed for (not the ledger's height)
-//@   at call n.d.OnTimeout: assert [C17] @timerEpoch arg0 == n.d.Timer.Height() && arg1 == n.d.Timer.View()
+//@   at call *.OnTimeout: assert [C17] @timerEpoch arg0 == n.d.Timer.Height() && arg1 == n.d.Timer.View()
 
 // the example's ledger: an accepted block becomes the tip that the library is told about at the next Reset
 //@ extern Block.Transactions
@@ -38,15 +39,19 @@ package main
 //@ pure Timer.View
 //@ pure Block.Hash
 //@ func (*simNode).ProcessBlock
+//@   loops 1
 //@   requires b != nil && n.d != nil && n.pool != nil
 //@   ensures [C17] @tipAdvances result == nil && n.height == b.Index() && n.lastHash == b.Hash()
 //@ func (*simNode).CurrentHeight
+//@   loops 0
 //@   ensures [C17] @reportsTip result == n.height
 //@ func (*simNode).CurrentBlockHash
+//@   loops 0
 //@   ensures [C17] @reportsTip result == n.lastHash
 
 // a broadcast tries every other node of the cluster once (a full inbox drops the message, it does not skip the peer)
 //@ func (*simNode).Broadcast
+//@   loops 1
 //@   requires n.log != nil && forall(k, 0, len(n.cluster), n.cluster[k] != nil && n.cluster[k].messages != nil)
 //@   loop 1: invariant 0 <= idx && idx <= len(n.cluster) && sendattempts() - before(sendattempts()) == count(j, 0, idx, j != n.id)
 //@   ensures [C17] @everyPeer sendattempts() - old(sendattempts()) == count(j, 0, len(n.cluster), j != n.id)
